@@ -30,10 +30,10 @@ CHECKS = {
 }
 
 
-C18TXT = ("Nine busy scenarios (request awaiting ACK / separate response, block-wise up and down, observation on client and server, "
-          "backlog of three, slow handler before the empty ACK, live dedup entry), each next to a bystander context with its own in-flight "
-          "request: Context.shutdown() is started after every step of the default run (and of every one-deviation run), the loop is then "
-          "drained over EXCHANGE_LIFETIME. Shutdown returns within 3 s; every pending future/observation (and requests re-issued from "
+C18TXT = ("Ten busy scenarios (request awaiting ACK / separate response, block-wise up and down, observation on client and server, "
+          "backlog of three, slow handler before the empty ACK, a token re-used while its first handler runs, live dedup entry), each next to a bystander context with its own in-flight "
+          "request: Context.shutdown() is started after every step of the default run (and of every one-deviation run), plain and with the "
+          "loop stalling 0.15 s / 3.5 s after the 1st..6th loop iteration of the shutdown (late timers); the loop is then drained over EXCHANGE_LIFETIME. Shutdown returns within 3 s; every pending future/observation (and requests re-issued from "
           "failure callbacks inside the shutdown window) ends with an aiocoap.error.Error; handlers see CancelledError; nothing is sent "
           "and nothing raises in the loop afterwards; a later request fails with LibraryShutdown; the bystander completes as usual.")
 C20TXT = ("A real StandaloneResourceDirectory behind Context.render_to_pipe on the virtual loop: all sequences to depth 3-4 (quick) / 5 "
@@ -65,9 +65,9 @@ CHECKS.update({
     "C05": ("model_checking", E1 + "; " + E2,
             "The real BlockwiseRequest client runs every transfer of a grid (4 methods x boundary body lengths x server SZX 0-6 x client "
             "maximum SZX 0-6 x mid-transfer reductions) to completion against an independent strict RFC 7959 server that checks every "
-            "wire rule and reassembles the body; both bodies must be byte-identical (position-coded contents). Seven server misbehaviours "
+            "wire rule and reassembles the body; both bodies must be byte-identical (position-coded contents). Nine server misbehaviours "
             "at every block position must end in an error (or an unsuccessful response), never in a different body. Short transfers are "
-            "additionally explored under all <= K drops/duplications of individual datagrams.",
+            "additionally explored under all <= K drops/duplications of individual datagrams (K=1 +K=2 quick; K=2 on six transfers +K=3 on two thorough).",
             TB + "mcv/refpeer.RefBlockServer is the RFC 7959 oracle. Bodies <= 4096 bytes.",
             "DESIGN.md 6/C05"),
     "C06": ("model_checking", E3,
@@ -82,7 +82,8 @@ CHECKS.update({
             "A scripted notifier feeds the real client (plain Request path and default BlockwiseRequest path) every sequence up to length 3 "
             "(quick) / 4 (thorough) over 33 items (Observe deltas around 0, +-1, +-2, +-2^23; inter-arrival 0/128/128.1 s), all ordered pairs "
             "over the full 88-item alphabet incl. NON and 127.9 s, duplicates, and terminators (2.05 without Observe, 4.04, ICMP error, first "
-            "response without Observe) at every position followed by later arrivals. Callback stream == model's accepted sequence; iterator "
+            "response without Observe) at every position followed by later arrivals; E2 over notifications whose bodies are fetched block-wise "
+            "(newer notification / final response arriving, dropped or duplicated mid-fetch) and two observations to one server under a transport error. Callback stream == model's accepted sequence; iterator "
             "stream a subsequence ending with the last; exactly one termination signal of the right kind; ACK while observing / RST after the end.",
             TB + "Clock seam shared by model and library.",
             "DESIGN.md 6/C07"),
@@ -93,7 +94,7 @@ CHECKS.update({
             "Per registration the monitor checks on the wire: token, strictly increasing Observe over first transmissions, the latest state "
             "eventually sent, every listed end condition ending it, cancellation callback exactly once, nothing first-transmitted afterwards, "
             "observer count restored, nothing raised in the loop.",
-            TB + "K=1 on five scenarios + K=2 on one (quick); K=2 (thorough). Known finding C08-K1 (RST to a NON notification).",
+            TB + "K=1 on five scenarios + K=2 on one (quick); K=2 + capped K=3 on four scenarios (thorough). Known finding C08-K1 (RST to a NON notification).",
             "DESIGN.md 6/C08"),
     "C09": ("model_checking", E1 + "; differential isolation runs",
             "On the real UDP server stack every handler outcome (returns with/without code and payload, every "
@@ -101,22 +102,24 @@ CHECKS.update({
             "errors, wrong return types, failing error renderers) x fast/slow x methods x CON/NON, and the three dispatch failures, is "
             "executed once; the final responses carrying the token are counted on the wire and compared with the expected code/payload; "
             "a secret marker must never appear on the wire. Failing requests placed before/during/after well-behaved neighbours (same "
-            "or other peer) must leave the neighbours' responses identical to the run without them; a superseding request on a reused token is still answered.",
+            "or other peer) must leave the neighbours' responses identical to the run without them; a superseding request on a reused token is still answered; "
+            "pairs of slow requests of one peer whose separate responses queue behind each other (all ordered outcome pairs x 5 ACK delays thorough) each get one final response.",
             TB + "Peer ACKs separate responses immediately.",
             "DESIGN.md 6/C09"),
     "C10": ("model_checking", E1 + " (the RFC 7252 s.4.2/4.3 + RFC 7967 reaction table), plus all ordered pairs of a sub-table",
             "A real context that is client (one pending, already ACKed request) and server (handlers of duration 0, EMPTY_ACK_DELAY-/+1ms, "
             "0.5 s) receives every cell of type x code class x token known/unknown x source x unicast/multicast local address x "
-            "No-Response; the reply datagrams with their virtual send times are compared with the table cell by cell, all 33^2 ordered "
-            "pairs of a sub-table are compared as multisets with ACK-before-separate-response order, and outgoing requests to "
+            "No-Response; the reply datagrams with their virtual send times are compared with the table cell by cell, all ordered "
+            "pairs (and, thorough, all ordered triples) of a sub-table are compared as multisets with ACK-before-separate-response order, "
+            "cells arriving behind an unacknowledged own CON and same-token supersessions are checked, and outgoing requests to "
             "multicast destinations are checked never to be CON.",
             TB + "Don't-care cells (CON with reserved/signalling code; CON requests received on multicast) are excluded from the table comparison but still checked for invariants.",
             "DESIGN.md 6/C10"),
     "C15": ("model_checking", E1 + " (frame sequences x chunkings) against the independent RFC 8323 framer; differential over chunkings",
             "A real TcpConnection (server role; client role with pending requests) on a real TCPServer/TCPClient pool, TokenManager and "
-            "Context over a fake asyncio transport receives every sequence up to length 2-3 over a 22-frame alphabet (CSM variants, "
+            "Context over a fake asyncio transport receives every sequence up to length 2-3 over a 30-frame alphabet (CSM variants, "
             "requests with length field 0/12/13/268/269, unknown-token response, Ping/Pong/Release/Abort, Empty, unknown signalling code, "
-            "oversized frame, TKL 9, three unparsable-option shapes) under every chunking of a family (all compositions for short streams; "
+            "critical/elective options in Ping/Pong/Release/Abort, frames exactly at and one byte over the size limit, oversized frame, TKL 9, three unparsable-option shapes; plus every frame size limit-2..limit+15 x token length 0-8) under every chunking of a family (all compositions for short streams; "
             "whole, bytewise, fixed sizes, every single cut, strided cut pairs otherwise). Dispatch list, signalling writes (own CSM, "
             "Pong with the Ping's token, Abort), closed flag and reported errors must equal the reference processing and be identical for "
             "all chunkings; nothing may escape data_received; written bytes must re-frame exactly; serialisation is compared at the "
@@ -125,20 +128,20 @@ CHECKS.update({
             "DESIGN.md 6/C15"),
     "C16": ("exploration", E1 + " (own reading of RFC 7252 s.6.4/6.5 with its own percent codec)",
             "Message.set_request_uri / get_request_uri / UndecidedRemote / hostportjoin / hostportsplit are run over closed products: "
-            "9 schemes x 18 hosts (names, mixed case, percent-escapes, non-ASCII, IPv4 look-alikes, IPv6 literals, zones, IPvFuture, "
-            "broken brackets, empty) x 9 ports x userinfo/fragment toggles; path lists of length <= 3 and query lists of length <= 2 over "
-            "17 segments (every reserved character, empty, dots, non-ASCII, literal percent text) both as percent-encoded URI text and as "
-            "raw options; verbatim bad escapes; every string of length <= 3 over 13 structural characters behind six prefixes. Decomposition "
+            "9 schemes x 22 hosts (names, mixed case, percent-escapes, non-ASCII, IPv4 literals incl. 255/0 octets and look-alikes, IPv6 literals, zones, IPvFuture, "
+            "broken brackets, empty) x 9 ports x userinfo/fragment toggles; path lists of length <= 3 (4 thorough) and query lists of length <= 2 over "
+            "23 segments (every reserved character, empty, dots, control characters, non-ASCII up to astral planes, literal percent text) both as percent-encoded URI text and as "
+            "raw options; verbatim bad escapes; every string of length <= 3 (5 thorough) over 13 structural characters behind nine prefixes. Decomposition "
             "must equal the model, recomposition must decompose to the same options and destination, options -> URI -> options must be the "
             "identity, and every rejection must be MalformedUrlError or IncompleteUrlError.",
             "Trusted: the model in mcv/props/c16_uri.py. Alphabets, not the full Unicode range.", "DESIGN.md 6/C16"),
     "C17": ("model_checking", E1 + "; " + E3,
-            "Every configuration of a closed family (all sets of <= 3 resources at paths of length <= 3 over {a,b,''}, 0-2 nested sites "
+            "Every configuration of a closed family (all sets of <= 3 (4 thorough) resources at paths of length <= 3 over {a,b,''}, 0-2 nested sites "
             "incl. a second level and prefix-overlapping pairs, path-capable leaves, resources with rt/if/ct attributes and a hidden one) "
             "is built as a real Site and receives all 121 request paths of length <= 4 through Context.render_to_pipe: the handler that ran, "
             "the stripped path it saw and the URI it reconstructs are compared with a longest-proper-prefix model; the parsed "
             "/.well-known/core listing and 16 single-criterion filters are compared with the model's subset; add/remove histories of "
-            "length <= 3 are followed by a full routing sweep after every step.",
+            "length <= 3 (4 thorough) are followed by a full routing sweep after every step.",
             TB + "Quick explores a seed-rotated 1/7 of the 3-resource sets.", "DESIGN.md 6/C17"),
     "C19": ("exploration", E1 + ", with every file-system access observed (audit hook + os wrappers) and before/after snapshots",
             "A real FileServer on a scratch tree (root with files and a sub-directory, a sibling whose name has the root's name as prefix, a "
@@ -166,7 +169,7 @@ CHECKS.update({
             "DESIGN.md 6/C11"),
     "C12": ("model_checking", E3 + "; " + E1,
             "ReplayWindow: BFS with dedup over all is_valid/strike_out histories for sizes 1-4 (depth 6-8), 8 and 32 (depth 4-5) from empty, "
-            "freshly-seen and persisted initialisations against a set-and-floor model, with a persist/reload probe in every state. "
+            "freshly-seen and persisted initialisations against a set-and-floor model, with a persist/reload probe in every state (and of the uninitialised window). "
             "unprotect(): every arrival sequence up to length 3-5 over genuine requests with numbers {0,1,2,w-1,w,w+1,3w}, replays, "
             "tag-flipped and foreign-key forgeries and Echo variants, for windows 2 and 32, initialised and uninitialised: accepted at most "
             "once, old numbers refused, fresh numbers accepted, forgeries never move the window, nothing accepted before the right Echo.",
@@ -175,17 +178,17 @@ CHECKS.update({
             "A real FilesystemSecurityContext on a scratch directory, with aiocoap.oscore's os / tempfile / io replaced by recording proxies "
             "that number every effect (lock creation aside: mkstemp, write incl. a half-written variant, flush, fsync, close, replace, "
             "unlink): all histories up to length 2-3 (+4 fixed closing operations) over protect / accept n / accept with fresh Echo / "
-            "respond twice / clean stop+reload / stray temp file, for chunk sizes start {1,2,3,10} x limit {4,10000}, long runs across "
-            "several chunk boundaries, and exhaustion histories from 2^40-4..2^40-1. Across all lifetimes of a history: no (key, nonce) "
+            "respond twice / own request answered by the peer without or with its own Partial IV / clean stop+reload / stray temp file, for chunk sizes start {1,2,3,10} x limit {4,10000}, long runs across "
+            "several chunk boundaries, two crashes per run on a fixed history, and exhaustion histories from 2^40-4..2^40-1. Across all lifetimes of a history: no (key, nonce) "
             "pair encrypts twice, sender numbers strictly increase and are never re-issued, none reaches 2^40-1, a request accepted in "
             "any lifetime is never accepted again, fresh requests are accepted after a clean stop and after a fresh Echo.",
             "Trusted: as C11 plus the process-death crash model (completed file operations persist; no power-loss semantics, no I/O errors).",
             "DESIGN.md 6/C13"),
     "C14": ("model_checking", E2,
-            "Scripted submissions of CON/NON requests to two peers; the monitor rebuilds open-exchange/backlog state per remote from the "
+            "Scripted submissions of CON/NON requests to two peers (plus the node's own separate CON response); server reply modes incl. the response overtaking the ACK, RST, ICMP error, sendmsg error and withdrawal of a held-back request are choice points; the monitor rebuilds open-exchange/backlog state per remote from the "
             "wire and the applied events: never two open CON exchanges per remote, FIFO release in the very step the exchange ahead ends, "
             "no delay for other remotes/NON, every held-back message transmitted or failed, _backlogs keys == remotes with an active exchange.",
-            TB + "K=1 on three scenarios + K=2 on one (quick); K=2 + K=3 (thorough).",
+            TB + "K=1 on four scenarios + K=2 on one (quick); K=2 + K=3 (thorough).",
             "DESIGN.md 6/C14"),
 })
 
